@@ -25,7 +25,7 @@ CLAIMED = {
     technique="SAT-based bounded model checking (Kani/CBMC) of symbolic operation histories on the real symbol table with a ghost model, and SMT (z3, QF_BV) over the MIR-extracted kind table of the slot recycler; native replay by concrete playback / a redefinition history on the real engine",
     design="§4 C06"),
  "C07": dict(
-    text="Bounded model checking (Kani/CBMC) with panic/overflow/shift/division checks on: real numeric primitives (arithmetic-shift and abs at full width, expt with exponent -30, the division family on stated operand ranges) return Ok or Err and never panic; a failed evaluation rolled back in the real symbol table leaves no residue. Plus one SMT query (z3, QF_BV) per registered built-in procedure over its MIR: no argument count reaches an out-of-bounds access of the argument vector, a failing sub-slice args[n..], or an unwrapped conversion of an argument; and (kinds) no choice of argument count, argument KINDS (37 variants of SteelVal), integer payloads and sharing reaches an explicit panic (panic!/unreachable!/todo!) of a script-callable procedure or numeric kernel along a fully interpreted path. Plus Kani harnesses of the byte-vector and string index procedures through their registered wrappers with full-width symbolic indices. Round 3: the number-literal kernel of the reader (steel_parser parse_real, behind string->number and every numeric token) on every valid UTF-8 string of at most 4 bytes; and an SMT query per indexing site of the script-callable procedures (GenericVector::set/update/take, Vec::remove/insert, Index<usize>): exists an index and a length that pass the procedure's guards and violate the precondition of the indexing call.",
+    text="Bounded model checking (Kani/CBMC) with panic/overflow/shift/division checks on: real numeric primitives (arithmetic-shift and abs at full width, expt with exponent -30, the division family on stated operand ranges) return Ok or Err and never panic; a failed evaluation rolled back in the real symbol table leaves no residue. Plus one SMT query (z3, QF_BV) per registered built-in procedure over its MIR: no argument count reaches an out-of-bounds access of the argument vector, a failing sub-slice args[n..], or an unwrapped conversion of an argument; and (kinds) no choice of argument count, argument KINDS (37 variants of SteelVal), integer payloads and sharing reaches an explicit panic (panic!/unreachable!/todo!) of a script-callable procedure or numeric kernel along a fully interpreted path. Plus Kani harnesses of the byte-vector and string index procedures through their registered wrappers with full-width symbolic indices. Round 3: the number-literal kernel of the reader (steel_parser parse_real, behind string->number and every numeric token) on every valid UTF-8 string of at most 4 bytes; and an SMT query per indexing site of the script-callable procedures (GenericVector::set/update/take, Vec::remove/insert, Index<usize>): exists an index and a length that pass the procedure's guards and violate the precondition of the indexing call. And: no unwrap / expect in the numeric code is applied to the result of a partial conversion of a double (from_f64 / from_float: None for NaN and the infinities).",
     note="Kernel level only; in the MIR queries branch conditions on the argument count, on the discriminant and integer payload of an argument and on uniqueness tests are interpreted, paths through any other branch are dropped (counted in evidence); panics inside callees are not seen. Index harnesses: 2-byte vectors, 3-character strings; lists, persistent vectors, substring, make-bytes measured out. Outside: arbitrary source text (reader not encodable, see C12), expansion/compilation, stack reset after errors, native stack depth.",
     technique="SAT-based bounded model checking (Kani/CBMC) of real primitives with Kani's panic checks, and SMT (z3, QF_BV) over the MIR of all registered built-in procedures for argument-vector accesses and for index guards against the preconditions of the indexing calls behind them, and for panic sites against symbolic argument kinds; native replay by concrete playback / a script call under catch_unwind",
     design="§4 C07"),
@@ -35,12 +35,12 @@ CLAIMED = {
     technique="SAT-based bounded model checking (Kani/CBMC) of allocator accounting steps from a symbolic valid state; SMT (z3, QF_BV) reachability over the MIR control flow of the slot recycler",
     design="§4 C19"),
  "C20": dict(
-    text="Bounded model checking (Kani/CBMC) of the real scalar conversions at the host boundary on full-width symbolic values: Ok(v) only with the same mathematical value, out of range => Err, host integers never wrap on the way in (big integer above the machine word), round trips are the identity. Plus an SMT query per register_fn wrapper closure (MIR -> QF_BV, z3): no two different argument counts reach the host function call, and parameter k of the host call is computed from exactly args[k]. Round 3: rank-encoded path queries (z3) over the six wrappers that hand out a reference DERIVED from a lent reference: no path to the hand-out without marking the parent as borrowed on the same flag object, without parking the owner of the derived pointer in the nursery, or with the flag of another argument than the receiver. And round trips: every u64 / usize / i64 / u32 value into the script side and back is the identity.",
+    text="Bounded model checking (Kani/CBMC) of the real scalar conversions at the host boundary on full-width symbolic values: Ok(v) only with the same mathematical value, out of range => Err, host integers never wrap on the way in (big integer above the machine word), round trips are the identity. Plus an SMT query per register_fn wrapper closure (MIR -> QF_BV, z3): no two different argument counts reach the host function call, and parameter k of the host call is computed from exactly args[k]. Round 3: rank-encoded path queries (z3) over the six wrappers that hand out a reference DERIVED from a lent reference: no path to the hand-out without marking the parent as borrowed on the same flag object, without parking the owner of the derived pointer in the nursery, or with the flag of another argument than the receiver. And round trips: every u64 / usize / i64 / u32 value into the script side and back is the identity. And: the tuple conversion (A, B) reaches Ok only behind a test of the script list's length.",
     note="Scalars only (i8..u128, f32, f64, char, bool, unit, Option<i32>, big-integer sources up to 2^66); arity: only branch conditions on the argument-slice length are interpreted, every other branch is free. Outside: strings/vectors/maps/sets/tuples/structs, argument value extraction in register_fn (needs an Engine), lent references (nursery is a destructor-bearing thread-local). Lending: only the three control-flow facts of lib/p_lend.py; the run-time checks that use the flags, the nursery clean-up at the end of a lending call and clones of derived references are exercised by the native replay only.",
     technique="SAT-based bounded model checking (Kani/CBMC) of the real conversion impls on full-width symbolic scalars, and SMT (z3, QF_BV) over the MIR of the register_fn wrapper closures for arity and argument-to-parameter mapping; native replay by concrete playback / a script call through the real Engine",
     design="§4 C20"),
  "C10": dict(
-    text="Bounded model checking with Kani/CBMC of the real numeric primitives on symbolic operands (full 64-bit width for + - negate abs parity arithmetic-shift int/float equality; exact of every integral double; magnitude; machine integer by big integer quotient with a division model; stated smaller ranges for division, multiplication values, expt, rationals) against a 128-bit oracle and a canonical-form check; counterexamples are replayed natively with Kani's concrete playback, which runs the real code. Round 3: the ordering behind <, <=, >, >= (partial_cmp) for every machine integer against every finite double and against big integers just beyond 2^63, floor / ceiling of small rationals for every i32 numerator, the reciprocal of every machine integer; and an SMT query over the code generator's MIR: every integer literal packed into a 24-bit instruction payload (the operand of ADDIMMEDIATE / SUBIMMEDIATE / LTEIMMEDIATE) is below 2^24. And per specialised arithmetic / comparison opcode arm of the interpreter (10 opcodes) and per number kind of the operand: the arm reaches an operation of the opcode's family (generic primitive, shared ordering, checked machine operation), i.e. one the harnesses decide; a counterexample is replayed differentially against the generic procedure.",
+    text="Bounded model checking with Kani/CBMC of the real numeric primitives on symbolic operands (full 64-bit width for + - negate abs parity arithmetic-shift int/float equality; exact of every integral double; magnitude; machine integer by big integer quotient with a division model; stated smaller ranges for division, multiplication values, expt, rationals) against a 128-bit oracle and a canonical-form check; counterexamples are replayed natively with Kani's concrete playback, which runs the real code. Round 3: the ordering behind <, <=, >, >= (partial_cmp) for every machine integer against every finite double and against big integers just beyond 2^63, floor / ceiling of small rationals for every i32 numerator, the reciprocal of every machine integer; and an SMT query over the code generator's MIR: every integer literal packed into a 24-bit instruction payload (the operand of ADDIMMEDIATE / SUBIMMEDIATE / LTEIMMEDIATE) is below 2^24. And per specialised arithmetic / comparison opcode arm of the interpreter (10 opcodes) and per number kind of the operand: the arm reaches an operation of the opcode's family (generic primitive, shared ordering, checked machine operation), i.e. one the harnesses decide; a counterexample is replayed differentially against the generic procedure. And: no unwrap / expect in the numeric code is applied to the result of a partial conversion of a double.",
     note="Trusted: Kani/CBMC; num-bigint (its `BigInt += isize`/`*= isize` are modelled by exact i128 arithmetic and the x86 carry intrinsics by their definition); feature set without jit2. `BigInt << u32` and `BigInt::pow` are recording stubs; num-bigint's long division is replaced by an exact model valid for quotient digit 0/1 (num_*_i_big). One SMT query (z3) per numeric kernel over its MIR: every pair of number kinds is handled without reaching unreachable!(); and one over the decision tree of PartialOrd::partial_cmp: every ordered pair of real-number kinds has an arm. Outside: the specialised arithmetic opcodes inlined in the VM loop, the constant folder, number<->string, gcd/lcm, expt beyond exponent -1/-30, full-width division and multiplication values, big-integer division, big operands above two limbs.",
     technique="SAT-based bounded model checking (Kani/CBMC) of the real primitives with a 128-bit arithmetic oracle, and SMT (z3, QF_BV) over the MIR of the numeric kernels for kind-pair totality and (code generator) for the range of literal operands packed into instruction payloads; native replay by concrete playback / a script call",
     design="§4 C10"),
